@@ -158,8 +158,17 @@ func (m *MemStore) ObjectPath(base string) string { return m.prefix + base }
 func (m *MemStore) ObjectURL(base string) string  { return "mem://" + m.prefix + base }
 func (m *MemStore) SetMeter(meter dstore.Meter)    {}
 
-func (m *MemStore) Clone(ctx context.Context, opts ...dstore.Option) (dstore.Store, error) {
-	return &MemStore{files: m.files, prefix: m.prefix, failWrites: m.failWrites}, nil
+// URLStore is the store handed out by URL: it is also dstore.Clonable, like the real stores
+// the services open (plain MemStores handed directly to the storage layer are not, so that
+// code under check does not take its metering branch).
+type URLStore struct{ *MemStore }
+
+func (u *URLStore) SubStore(sub string) (dstore.Store, error) {
+	return &URLStore{&MemStore{files: u.files, prefix: u.prefix + sub + "/", failWrites: u.failWrites}}, nil
+}
+
+func (u *URLStore) Clone(ctx context.Context, opts ...dstore.Option) (dstore.Store, error) {
+	return &URLStore{&MemStore{files: u.files, prefix: u.prefix, failWrites: u.failWrites}}, nil
 }
 
 // StoreByURL is what the checked code gets from dstore.NewStore / NewDBinStore (the engine
@@ -168,7 +177,7 @@ var StoreByURL = map[string]*MemStore{}
 
 func HookNewStore(baseURL, extension, compressionType string, overwrite bool, opts ...dstore.Option) (dstore.Store, error) {
 	if s, ok := StoreByURL[baseURL]; ok {
-		return s, nil
+		return &URLStore{s}, nil
 	}
 	return nil, errors.New("mem store: no store registered for " + baseURL)
 }
